@@ -7,6 +7,10 @@ Init == c \in Choices(Deep)
 Next == UNCHANGED c
 Emit == PrintT("@@CASE " \o ToJson([choice |-> c, schema |-> Valid(c),
                                     order |-> [i \in 1..Len(Valid(c).ents) |-> AttrOrder(Valid(c), Valid(c).ents[i].name)],
+                                    files |-> Files(Valid(c)),
+                                    dict |-> Dictionary(Valid(c)),
+                                    devtypes |-> {Valid(c).types[i].name : i \in {j \in 1..Len(Valid(c).types) :
+                                                    Dev_RenamedEnumNotRegistered(Valid(c), Valid(c).types[j]) \/ Dev_NestedAggrNotRegistered(Valid(c), Valid(c).types[j])}},
                                     mutants |-> IF WithMutants THEN Mutants(c) \cup LexMutants ELSE {}]))
 (* AttrOrder has no duplicates and ends with the entity's own attributes *)
 OrderSane == \A i \in 1..Len(Valid(c).ents) :
